@@ -20,8 +20,9 @@ package contexttags
 //@   ensures err == nil ==> result == nil
 
 //@ func decodeWithContext
-//@   props C05 C01 C11
+//@   props C05 C01 C11 C03 C12
 //@   requires cause != nil
+//@   requires[C03,C12] safeSeq(redactedTags)
 //@   ensures !typeis(payload, *errorspb.TagsPayload) ==> result == nil
 //@   ensures result != nil ==> typeis(result, *withContext) && result.(*withContext).cause == cause && result.(*withContext).redactedTags == redactedTags
 //@   loop 1: invariant b != nil
@@ -29,12 +30,20 @@ package contexttags
 //@ method (*withContext).SafeDetails
 //@   props C11 C12 C03
 //@   ensures self.redactedTags != nil ==> result == self.redactedTags
+//@   ensures[C03] safeSeq(result)
+
+// C03: the redacted tag strings received from the wire are the reportable payload of the peer's
+// encodeWithContext (wire invariant); decodeWithContext establishes this from its precondition
+//@ type withContext invariant[C03,C12] safeSeq(self.redactedTags)
 
 //@ func redactTags
 //@   props C05 C03 C12
 //@   requires b != nil
 //@   ensures len(result) == len(tagsOf(b))
+//@   ensures[C03] safeSeq(result)
+//@   loop redactableTagsIterate.1: invariant len(res) == len(tagsOf(b)) && safeSeq(res)
 
 //@ func redactableTagsIterate
 //@   props C03 C05
+//@   inline
 //@   requires b != nil && fn != nil
